@@ -120,6 +120,28 @@ fn custom_closures(op: &OpKind, id: usize, log: Log) -> (ForwardOp, BackwardOp) 
             });
             (fw, bw)
         }
+        OpKind::CBAdd | OpKind::CBMul => {
+            let is_mul = matches!(op, OpKind::CBMul);
+            // broadcasting by plain index arithmetic; deltas are returned at the OUTPUT's shape
+            fn bcast(a: &Array, b: &Array, f: impl Fn(Float, Float) -> Float) -> Array {
+                let dims = refmodel::tensor::broadcast_dims(a.dimensions(), b.dimensions()).expect("custom broadcast: incompatible shapes");
+                let n: usize = dims.iter().product();
+                let vals = (0..n)
+                    .map(|k| {
+                        let idx = refmodel::tensor::unravel(k, &dims);
+                        f(a.values()[refmodel::tensor::ravel_broadcast(&idx, a.dimensions())], b.values()[refmodel::tensor::ravel_broadcast(&idx, b.dimensions())])
+                    })
+                    .collect();
+                plain(&dims, vals)
+            }
+            let fw: ForwardOp = if is_mul { Rc::new(|x: &[&Array]| bcast(x[0], x[1], |p, q| p * q)) } else { Rc::new(|x: &[&Array]| bcast(x[0], x[1], |p, q| p + q)) };
+            let bw: BackwardOp = Rc::new(move |c, t, x| {
+                logit(t, x, &log);
+                let d = |other: &Array| if is_mul { bcast(other, x, |p, q| p * q) } else { plain(x.dimensions(), x.values().to_vec()) };
+                vec![if t[0] { Some(d(&c[1])) } else { None }, if t[1] { Some(d(&c[0])) } else { None }]
+            });
+            (fw, bw)
+        }
         _ => unreachable!(),
     }
 }
@@ -189,7 +211,7 @@ impl Exec {
             Sigmoid => a[0].sigmoid(),
             Softmax => a[0].softmax(),
             ActRelu | ActSigmoid | ActSoftmax => unreachable!(),
-            CAdd | CMul | CScale(_) | CFused3 => {
+            CAdd | CMul | CScale(_) | CFused3 | CBAdd | CBMul => {
                 let id = self.n_custom;
                 let (fw, bw) = custom_closures(op, id, Rc::clone(&self.log));
                 // the caller decides whether a custom operation is differentiable: the harness passes a
